@@ -192,7 +192,8 @@ def run(rep: Report, ctx: Any) -> str:
         return not ems or any(not ((LX.is_string(e.state) and "f" not in LX.string_info(e.state)[0]) or e.state in (LX.COMMENT, LX.INERT))
                               for e in ems)
 
-    site_nodes = [fr.via for fr in writers + readers]
+    # (a site is the node of the template's tree it was read from - through whichever macros the text is printed)
+    site_nodes = [_orig(fr.node) for fr in writers + readers]
     role: dict[int, str | None] = {}
     for f, lv in prop_loops:
         body = _region_frags(mt, f.body)
@@ -284,10 +285,10 @@ def run(rep: Report, ctx: Any) -> str:
     rep.check(ctor_dom == {True, False}, "R02.1", "model.py.jinja::constructor-keywords", "cls(...) is not called with python_name=python_name for every property",
               where=f"{PKG}/templates/model.py.jinja", lhs=sorted(ctor_dom), rhs="<property.python_name>=<property.python_name> for every property")
     # where from_dict pops: `<local> = ...` is only ever `<local> = <the pop>` (the conversions live in the kinds' construct macros)
-    reader_vias = {id(fr.via) for fr in readers}
+    reader_nodes = {id(_orig(fr.node)) for fr in readers}
     for f, lv in prop_loops:
         body = _region_frags(mt, [f])
-        if not any(id(fr.via) in reader_vias for fr in _stmt_frags([f], (nodes.Assign, nodes.AssignBlock, nodes.Output), ti=mt)):
+        if not any(id(_orig(fr.node)) in reader_nodes for fr in _stmt_frags([f], (nodes.Assign, nodes.AssignBlock, nodes.Output), ti=mt)):
             continue
         for i, a in enumerate(body[:-1]):
             eq = body[i + 1]
@@ -867,7 +868,7 @@ def _union_fallthrough(rep: Report, jx: Any) -> None:
         t = expr_text(_inline(f.iter, udefs))
         roles = _loop_roles(f, sel if sel is not None else _WHOLE, udefs)      # (not understood: read as a loop over the members themselves)
         decodes = roles is not None and any(isinstance(c.node, nodes.Getattr) and c.node.attr == "construct" and isinstance(c.node.node, nodes.Name) and
-                                            c.node.node.name in roles[1] for c in f.find_all(nodes.Call))
+                                            c.node.node.name in roles[1] for c in _calls_in(ut, [f]))
         # every member that has a construct is decoded, in the order listed: the loop takes the members as they are listed, or (a
         # selection) exactly those whose template has a construct
         ok = sel is not None and not sel.disorder and f.test is None and roles is not None and \
@@ -886,7 +887,7 @@ def _union_fallthrough(rep: Report, jx: Any) -> None:
 
 
 def _fallthrough_of(rep: Report, ut: Any, m: nodes.Macro, ml: nodes.For, loop_ok: bool, aliases: set[str], udefs: dict, loc: str) -> int:
-    frs = list(tplq.frags(ml.body))
+    frs = _region_frags(ut, ml.body)      # (in output order, what the macros of this template printed here print included)
 
     def is_decode(fr: tplq.Frag) -> bool:
         return fr.kind == "expr" and any(isinstance(c, nodes.Call) and isinstance(c.node, nodes.Getattr) and c.node.attr == "construct" and
@@ -898,7 +899,7 @@ def _fallthrough_of(rep: Report, ut: Any, m: nodes.Macro, ml: nodes.For, loop_ok
     # the pass-through flag, false only when no member without construct was met: a namespace attribute set to true where the member's
     # template has no construct, or a selection of the members that takes in exactly those without construct (empty = false)
     flags = set()
-    for s in _stmt_frags(ml.body, (nodes.Assign,)):
+    for s in _stmt_frags(ml.body, (nodes.Assign,), ti=ut):
         a = s.node
         if isinstance(a.target, nodes.NSRef) and isinstance(a.node, nodes.Const) and a.node.value is True:
             envs = list(_emitted_envs(s, _strip_parens))
@@ -1583,12 +1584,19 @@ def _inline(n: Any, defs: dict[str, list[nodes.Node]], depth: int = 0) -> Any:
     if not isinstance(n, nodes.Node):
         return n
     c = copy.copy(n)
+    c._orig = _orig(n)
     for fld, v in n.iter_fields():
         if isinstance(v, list):
             setattr(c, fld, [_inline(x, defs, depth) for x in v])
         elif isinstance(v, nodes.Node):
             setattr(c, fld, _inline(v, defs, depth))
     return c
+
+
+def _orig(n: Any) -> Any:
+    """the node of the template's own tree that n is (a copy of): the body of a called macro is read as a copy in which the parameters
+    are replaced by the arguments, a printed run of text and holes in pieces around the macros it calls"""
+    return getattr(n, "_orig", n)
 
 
 _SAME_ELEMENTS = {"list", "sort", "reverse"}      # filters that hand on the elements of a sequence themselves
@@ -1655,6 +1663,22 @@ def _stmt_frags(body: list[nodes.Node], types: tuple, guards: tuple = (), gnodes
     the macro are statements of the region, under the guards and loops of the call."""
     for n in body:
         v = via if via is not None else n
+        if isinstance(n, nodes.Output) and ti is not None and depth < 4 and any(_bound_body(ti, _unfiltered(x)) is not None for x in n.nodes[:-1]):
+            # an output statement that goes on after a printed macro of this template: in output order, the piece up to the call, what
+            # the macro prints, the rest
+            seg: list[nodes.Node] = []
+            for k, x in enumerate(n.nodes):
+                seg.append(x)
+                mb = _bound_body(ti, _unfiltered(x))
+                if mb is not None or k == len(n.nodes) - 1:
+                    if isinstance(n, types):
+                        piece = nodes.Output(seg, lineno=seg[0].lineno)
+                        piece._orig = _orig(n)
+                        yield _Stmt("stmt", "Output", piece.lineno, guards, gnodes, loops, piece, v, body, scope)
+                    seg = []
+                if mb is not None:
+                    yield from _stmt_frags(mb, types, guards, gnodes, loops, ti, v, mb, depth + 1)
+            continue
         if isinstance(n, types):
             yield _Stmt("stmt", type(n).__name__, n.lineno, guards, gnodes, loops, n, v, body, scope)
         if isinstance(n, nodes.If):
@@ -1984,7 +2008,7 @@ def _pop_forms(ti: Any, texts: _Texts) -> list[_PopForm]:
 
     envs: dict[int, Env] = {}
     stmts = list(_stmt_frags(ti.tree.body, (nodes.Assign, nodes.AssignBlock, nodes.Output), ti=ti))
-    in_block = {id(o) for st in stmts if isinstance(st.node, nodes.AssignBlock) for o in st.node.find_all(nodes.Output)}
+    in_block = {id(_orig(o)) for st in stmts if isinstance(st.node, nodes.AssignBlock) for o in st.node.find_all(nodes.Output)}
     for st in stmts:
         n = st.node
         env = envs.setdefault(id(st.scope), texts.scope_defs(st.scope))
@@ -1994,7 +2018,7 @@ def _pop_forms(ti: Any, texts: _Texts) -> list[_PopForm]:
             if id(n) not in seen:
                 seen.add(id(n))
                 sites.append((st, texts.body(n.body, 0, env)))
-        elif id(n) not in in_block:
+        elif id(_orig(n)) not in in_block:
             for x in n.nodes:
                 if isinstance(x, nodes.TemplateData):
                     if "d.pop(" in x.data and id(st.siblings) not in seen:
@@ -2073,6 +2097,18 @@ def _macro_region(ti: Any, name: str) -> list[nodes.Macro]:
     return [ti.macros[m] for m in seen]
 
 
+def _calls_in(ti: Any, body: list[nodes.Node], depth: int = 0) -> Iterator[nodes.Call]:
+    """every call made in the statements `body`, those made by the macros of this template called there included (read with the
+    parameters replaced by the arguments, so that a template or a property handed to a private macro is still the caller's)"""
+    for n in body:
+        for c in [n, *n.find_all(nodes.Call)]:
+            if isinstance(c, nodes.Call):
+                yield c
+                mb = _bound_body(ti, c) if depth < 4 else None
+                if mb is not None:
+                    yield from _calls_in(ti, mb, depth + 1)
+
+
 def _inner_aliases(m: nodes.Macro, defs: dict[str, list[nodes.Node]]) -> dict[str, str]:
     """{alias: text of X} for every `{% import "property_templates/" + X.template as alias %}` of the macro"""
     out: dict[str, str] = {}
@@ -2097,7 +2133,7 @@ def _delegated(ti: Any, macro: str) -> set[str]:
             roles = _loop_roles(f, sel, defs) if sel is not None else None
             for a in (roles[1] if roles else ()):
                 al.setdefault(a, roles[0])
-        for c in m.find_all(nodes.Call):
+        for c in _calls_in(ti, m.body):
             if isinstance(c.node, nodes.Getattr) and isinstance(c.node.node, nodes.Name) and c.node.node.name in al:
                 x = al[c.node.node.name]
                 first = c.args[0] if c.args else next((k.value for k in c.kwargs if k.key == "property"), None)
